@@ -102,6 +102,7 @@ def sign_spec(ans):
     # final bytes from the log, and the Spec predicate must hold on the final bytes
     if not ans.startswith('ok '): return ('s:echo sign-raised', 'ok 1')
     f = ans.split(' ')
+    if len(f) < 5: return ('s:raw ' + '-'.join(f[1:]), 'ok 1')       # a marker instead of a signature: disagreement
     sig, pub, digest, ht = f[1], f[2], f[3], f[4]
     return (f's:sig_check {pub} {digest} {sig} {ht}', 'ok 1')
 
@@ -147,10 +148,14 @@ def impl(op, a, ctx):
         before = tx.to_hex()
         pr = Proxy(k.key); k.key = pr
         if segwit:
-            digest = tx.get_transaction_segwit_digest(i, code, amt, ht); sig = k.sign_segwit_input(tx, i, code, amt, ht)
+            sig = k.sign_segwit_input(tx, i, code, amt, ht); digest = tx.get_transaction_segwit_digest(i, code, amt, ht)
         else:
-            digest = tx.get_transaction_digest(i, code, ht); sig = k.sign_input(tx, i, code, ht)
+            sig = k.sign_input(tx, i, code, ht)
+            try: digest = tx.get_transaction_digest(i, code, ht)
+            except ValueError: return 'ok signed-although-the-digest-is-refused'  
         log = list(pr.log)
+        if not log: return 'ok signature-returned-without-calling-the-signer'
+
         # determinism: again, and with a fresh key object after unrelated work
         k2 = PrivateKey(secret_exponent=d); k2.sign_input(tx, 0, Script(['OP_1']), 1)
         sig2 = k2.sign_segwit_input(tx, i, code, amt, ht) if segwit else k2.sign_input(tx, i, code, ht)
